@@ -418,6 +418,23 @@ def run(repo: Repo, rep: Report, tier: str) -> None:
     _borrow9(repo, rep, "C10", "C10-R1", "C09-R8", "a placed entity keeps its coordinates through the optimizer: the reference rewrite of IRPlaceEntity builds x from x and y from y, "
              "and rewrites every slot of the node", select=lambda o: "IRPlaceEntity" in o.construct or ".x " in o.construct or ".y " in o.construct, floor=2)
 
+    # ---------------- R9 ---------------------------------------------------------------
+    rep.rule("C09-R9", "where an entity lands is decided by its own position only: the emitter stores nothing on the blueprint object that moves or re-anchors the whole blueprint "
+             "(snapping grid, absolute snapping, position offsets) — its blueprint-level stores are metadata (label, description, version, icons)")
+    META9 = {"label", "description", "version", "icons", "label_color"}
+    n9 = 0
+    for f9 in repo.all_funcs():
+        if ".emission." not in f9.module.name + "." and f9.module.name not in ("compile", "dsl_compiler.cli"):
+            continue
+        for n in walk_local(f9.node):
+            tg9 = n.targets if isinstance(n, ast.Assign) else ([n.target] if isinstance(n, (ast.AugAssign, ast.AnnAssign)) else [])
+            for t in tg9:
+                if isinstance(t, ast.Attribute) and norm(t.value).endswith("blueprint") and not norm(t.value).endswith("_blueprint"):
+                    n9 += 1
+                    rep.check(t.attr in META9, "C09-R9", f"{f9.short}: blueprint.{t.attr} is metadata", "metadata" if t.attr in META9 else
+                              f"`{norm(n)[:80]}` re-anchors the blueprint: with a snapping grid the game places the blueprint relative to the grid, entities no longer land on the tiles the program named", f9.loc(n))
+    rep.floor("C09-R9", "blueprint-level attribute stores", n9, 3)
+
 
 
 def _deep(du: DefUse, e: ast.AST, depth: int = 0) -> list[ast.AST]:
